@@ -49,7 +49,7 @@ fn patterns() -> Vec<E> {
 fn positions() -> Vec<E> {
     let l = |x: &str| E::Lit(x.to_string());
     let n = |x: &str| E::Neg(Box::new(E::Lit(x.to_string())));
-    vec![l("0"), l("1"), l("2"), l("3"), l("5"), l("6"), l("7"), l("254"), l("255"), l("256"), l("32767"), n("1"), n("32767"), l("2.5"), l("0.9"), l("1D0"), l("32768"), l("65536"), n("0.5")]
+    vec![l("0"), l("1"), l("2"), l("3"), l("5"), l("6"), l("7"), l("254"), l("255"), l("256"), l("32767"), n("1"), n("32767"), l("2.5"), l("0.9"), l("1D0"), l("32768"), l("65536"), n("0.5"), l("2.99999999#"), l("0.99999999#"), l("255.99999999#"), l("1.9999999")]
 }
 
 const FORMS: usize = 25;
